@@ -73,9 +73,6 @@ theorem coeffs_old_mismatch : coeffsLen 8 = 10 ∧ min 9 (modeCount 8) = 9 := by
 section Perfect
 variable {K : Type} [Field K] [LinearOrder K] [IsStrictOrderedRing K] {n : ℕ}
 
-theorem toFn_zeroVec : toFn (zeroVec K n) = 0 := by
-  unfold zeroVec; rw [toFn_ofFn]; rfl
-
 /-- Every field in the linear span of the modes is mapped to zero — for any list of modes,
 linearly dependent or not. -/
 theorem perfect_nulls_span (ms : List (Vector K n)) (x : Vector K n)
@@ -168,17 +165,6 @@ example : (perfectCoronagraph (K := Rat) #v[1, 1, 1] #v[-1, 0, 1] #v[0, 0, 0] 4 
 /-! ## Lyot coronagraphs -/
 section Lyot
 variable {K : Type} [CommRing K] {m n : ℕ}
-
-theorem dot_zeroVec (r : Vector K m) : dot r (zeroVec K m) = 0 := by
-  rw [dot_eq_ip, toFn_zeroVec' ]
-  exact ip_zero_right _
-where
-  toFn_zeroVec' : toFn (zeroVec K m) = 0 := by unfold zeroVec; rw [toFn_ofFn]; rfl
-
-theorem matVec_zeroVec (B : Vector (Vector K m) n) : matVec B (zeroVec K m) = zeroVec K n := by
-  unfold matVec
-  simp only [dot_zeroVec]
-  rfl
 
 /-- **A fully transmissive focal-plane mask** (`m = 1`): the Lyot coronagraph returns the input
 times its Lyot stop — for arbitrary `F`, `B` (nothing about `B ∘ F` is needed: the subtracted
